@@ -113,16 +113,73 @@ FACTORY_SRC = {
     "wrong_shape": "lambda shape: np.ones(tuple(shape) + (1,))",
     "wrong_type": "lambda shape: [0.0] * int(np.prod(shape))",
     "raises": "_mk('def f(shape):\\n    raise RuntimeError(\"factory failed\")')",
+    # factories of the mandatory ordered pairs (c06.mandatory_pairs): what einx passes to a factory (`name`, `arg_index`,
+    # `signature`; all of them with **kwargs) depends on the factory's signature only, and every factory below returns a value
+    # that shows which keywords it received
+    "sig_shape": "_mk('def f(shape):\\n    return np.full(shape, 1.0)')",
+    "sig_shape_kwargs": "_mk('def f(shape, **kwargs):\\n    return np.full(shape, 10.0 * len(kwargs) + len(kwargs.get(\"name\", \"\")))')",
+    "sig_shape_name": "_mk('def f(shape, name):\\n    return np.full(shape, 100.0 + len(name))')",
+    "sig_shape_name_opt": "_mk('def f(shape, name=\"none\"):\\n    return np.full(shape, 200.0 + len(name))')",
+    "sig_shape_argindex_opt": "_mk('def f(shape, arg_index=7):\\n    return np.full(shape, 300.0 + arg_index)')",
+    "partial_name_opt": "_mk('def g(shape, name=\"none\", scale=1):\\n    return np.full(shape, scale * (400.0 + len(name)))\\nf = functools.partial(g, scale=2)')",
+    "partial_argindex_opt": "_mk('def g(shape, arg_index=7, scale=1):\\n    return np.full(shape, scale * (500.0 + arg_index))\\nf = functools.partial(g, scale=2)')",
+    "obj_repr_shape": "_mk('class f:\\n    def __repr__(self):\\n        return \"Factory()\"\\n    def __call__(self, shape):\\n        return np.full(shape, 600.0)\\nf = f()')",
+    "obj_repr_shape_name_opt": "_mk('class f:\\n    def __repr__(self):\\n        return \"Factory()\"\\n    def __call__(self, shape, name=\"none\"):\\n        return np.full(shape, 700.0 + len(name))\\nf = f()')",
+    "lambda_shape": "lambda shape: np.full(shape, 800.0)",
+    "lambda_shape_kwargs": "lambda shape, **kw: np.full(shape, 900.0 + len(kw))",
+    "fill_1": "_Fill(1.0)",
+    "fill_2": "_Fill(2.0)",
 }
-PRELUDE = """import types
+PRELUDE = """import functools
+import types
 import numpy as np
 import einx
 
 
 def _mk(src):
-    ns = {"np": np}
+    ns = {"np": np, "functools": functools}
     exec(src, ns)
     return ns["f"]
+
+
+class _Fill:
+    # tensor factory: all instances have the same class, signature and repr, the state differs
+    def __init__(self, v):
+        self.v = v
+
+    def __repr__(self):
+        return "_Fill()"
+
+    def __call__(self, shape):
+        return np.full(shape, self.v)
+
+
+class _ScaledSum:
+    # numpy-like reduction: all instances have the same class, __name__ and repr, the state differs
+    __name__ = "op"
+
+    def __init__(self, k):
+        self.k = k
+
+    def __repr__(self):
+        return "Op()"
+
+    def __call__(self, x, axis):
+        return np.sum(x, axis=axis) * self.k
+
+
+class _ScaledAdd:
+    # numpy-like elementwise operation: as _ScaledSum
+    __name__ = "op"
+
+    def __init__(self, k):
+        self.k = k
+
+    def __repr__(self):
+        return "Op()"
+
+    def __call__(self, x, y):
+        return (x + y) * self.k
 
 
 def _data(shape, dtype):
@@ -140,6 +197,14 @@ ADAPTER_SRC = {
     "reduce_scaled": "einx.numpy.adapt_numpylike_reduce(_mk('def f(x, axis, *, scale=1):\\n    return np.sum(x, axis=axis) * scale'))",
     "elementwise_add": "einx.numpy.adapt_numpylike_elementwise(np.add)",
     "elementwise_scaled": "einx.numpy.adapt_numpylike_elementwise(_mk('def f(x, y, *, scale=1):\\n    return (x + y) * scale'))",
+    # adapted callables of the mandatory ordered pairs: the code generated for the two members of a pair is the same text
+    # (same repr in the comment line, same name hints); only the constant bound to `const1` differs
+    "reduce_obj_k1": "einx.numpy.adapt_numpylike_reduce(_ScaledSum(1))",
+    "reduce_obj_k2": "einx.numpy.adapt_numpylike_reduce(_ScaledSum(2))",
+    "elementwise_obj_k1": "einx.numpy.adapt_numpylike_elementwise(_ScaledAdd(1))",
+    "elementwise_obj_k2": "einx.numpy.adapt_numpylike_elementwise(_ScaledAdd(2))",
+    "reduce_obj_sum": "einx.numpy.adapt_numpylike_reduce(_mk('class f:\\n    __name__ = \"op\"\\n    def __repr__(self):\\n        return \"Op()\"\\n    def __call__(self, x, axis):\\n        return np.sum(x, axis=axis)\\nf = f()'))",
+    "reduce_obj_max": "einx.numpy.adapt_numpylike_reduce(_mk('class f:\\n    __name__ = \"op\"\\n    def __repr__(self):\\n        return \"Op()\"\\n    def __call__(self, x, axis):\\n        return np.max(x, axis=axis)\\nf = f()'))",
 }
 
 
